@@ -134,7 +134,19 @@ func cmdRun(args []string) int {
 	if s := os.Getenv("VERIF_QUERY_TIMEOUT_MS"); s != "" {
 		timeout, _ = strconv.Atoi(s)
 	}
-	cfg := eng.RunConfig{Tier: *tier, TimeoutMs: timeout, Workers: 4, Trace: *trace, Known: loadKnown()}
+	cfg := eng.RunConfig{Tier: *tier, TimeoutMs: timeout, Workers: 10, Trace: *trace, Known: loadKnown()}
+	if f := os.Getenv("VERIF_ENGINE_REPLAY"); f != "" {
+		// debugging aid: evaluate the harness in the engine with the values of a replay file
+		b, err := os.ReadFile(f)
+		if err == nil {
+			var rf eng.ReplayFile
+			if json.Unmarshal(b, &rf) == nil {
+				cfg.Fixed = rf.Values
+				*noReplay = true
+				*noEvidence = true
+			}
+		}
+	}
 	results := make([]*eng.HarnessResult, len(hs))
 	sem := make(chan struct{}, *par)
 	var wg sync.WaitGroup
